@@ -4,7 +4,7 @@ from .e5_flow import Flow, signed_terms
 from .e3_bounds import predicate_counter
 from .solve import entails_h, linear, NonLinear
 from .terms import cases, cases_deep, free_ins
-from .vg import subterms, tstr, op, lit, TRUE, neg_cond, is_some
+from .vg import subterms, tstr, op, lit, TRUE, neg_cond, is_some, payload
 from . import spec
 
 _flows = {}
@@ -506,7 +506,7 @@ def census(F, R, names, rule='CEN'):
             # data-dependent holds
             holds = fl.holds(cell)
             base_cell = cell.split('.')[-1]
-            allowed_hold = (n, cell) in spec.HOLD_REGISTERS
+            allowed_hold = (n, cell) in spec.HOLD_REGISTERS or ((n, 'out') in spec.HOLD_REGISTERS and cell in fl.m.output_cells())
             data_holds = [h for h in holds if h[0] == 'data']
             full_holds = [h for h in holds if h[0] == 'full-window']
             if not self_referential(fl, cell) and not data_holds and not full_holds:
@@ -533,7 +533,7 @@ def census(F, R, names, rule='CEN'):
                 # only holds its value: no accumulation
                 if data_holds and allowed_hold:
                     okh, whyh = hold_is_exact(fl, cell)
-                    R.ob(rule, key, okh, 'listed hold register: ' + spec.HOLD_REGISTERS[(n, cell)] if okh else whyh, v.file)
+                    R.ob(rule, key, okh, 'listed hold register: ' + spec.HOLD_REGISTERS.get((n, cell), spec.HOLD_REGISTERS.get((n, 'out'), '')) if okh else whyh, v.file)
                 elif data_holds:
                     R.ob(rule, key, False, 'keeps its previous value under a data-dependent condition %s: not one of the allowed hold registers' % data_holds[0][1][:3], v.file)
                 else:
@@ -560,7 +560,7 @@ def census(F, R, names, rule='CEN'):
                 continue
             if data_holds and allowed_hold and not self_referential_beyond_hold(fl, cell):
                 okh, whyh = hold_is_exact(fl, cell)
-                R.ob(rule, key, okh, 'listed hold register: ' + spec.HOLD_REGISTERS[(n, cell)] if okh else whyh, v.file)
+                R.ob(rule, key, okh, 'listed hold register: ' + spec.HOLD_REGISTERS.get((n, cell), spec.HOLD_REGISTERS.get((n, 'out'), '')) if okh else whyh, v.file)
                 continue
             if data_holds and not allowed_hold:
                 R.ob(rule, key, False, 'keeps its previous value under a data-dependent condition %s: not one of the allowed hold registers' % data_holds[0][1][:3], v.file)
@@ -664,7 +664,7 @@ def run_c02(F, R):
     v_roc = view_by_name(F).get('Roc')
     if v_roc is not None:
         fl_roc = flow(F, v_roc)
-        for cell in [c for c in fl_roc.m.touched if c.split('.')[-1] == 'out']:
+        for cell in fl_roc.m.output_cells():
             okh, whyh = hold_is_exact(fl_roc, cell)
             R.ob('G-roc', 'Roc:hold', okh, 'the previous output is kept exactly when the base (the divisor) is 0' if okh else whyh, v_roc.file)
     R.floor('W1', 10)
@@ -712,8 +712,35 @@ def roc_base(F, R):
                     good = False
         if good and 'evicted' in kinds and 'first' in kinds:
             ok = True
+            base_cell = cell
             detail = 'base register `%s` := evicted value on eviction, first value initially, unchanged while filling' % cell
     R.ob('G-roc', 'Roc:base', ok, detail, v.file)
+    if ok:
+        # ... and the reported ratio divides by THAT register's value (as this update leaves it), not by a substitute
+        tb = fl.m.up_fields.get(base_cell)
+        allowed = {payload(tb), tb}
+        from .terms import nondelivering as _nd
+        inner_ = tb
+        while inner_[0] == 'phi' and (_nd((inner_[1],)) or _nd((neg_cond(inner_[1]),))):
+            inner_ = inner_[3] if _nd((inner_[1],)) else inner_[2]      # the value on the delivering path
+            allowed.add(inner_)
+            allowed.add(payload(inner_))
+        try:
+            for conds, leaf in cases(tb):
+                allowed.add(leaf)
+                allowed.add(payload(leaf))
+        except OverflowError:
+            pass
+        bad = None
+        ndiv = 0
+        for oc in [c for c in fl.m.touched if c not in fl.B.buffers and c != base_cell]:
+            t = fl.m.up_fields.get(oc)
+            for x in subterms(t):
+                if x[0] == 'op' and x[1] == 'div' and len(x[2]) == 2 and any(y[0] == 'child' for y in subterms(x[2][0])):
+                    ndiv += 1
+                    if x[2][1] not in allowed:
+                        bad = 'the rate of change divides by %s, which is not the value of the base register `%s`' % (tstr(x[2][1])[:70], base_cell)
+        R.ob('G-roc', 'Roc:divisor', bad is None and ndiv > 0, 'the reported ratio divides by the base register itself' if bad is None and ndiv > 0 else (bad or 'no ratio found'), v.file)
 
 
 def run_c03(F, R):
@@ -758,7 +785,7 @@ def output_from_exit_aggregates(F, R, names, rule='G-exit'):
             R.violation(rule, n, 'not found')
             continue
         fl = flow(F, v)
-        out_cells = [c for c in fl.m.touched if c.split('.')[-1] == 'out']
+        out_cells = fl.m.output_cells()
         running = [c for c in float_cells(fl) if self_referential(fl, c) and c not in out_cells]
         # aggregates: running accumulators and cells recomputed by a pass over the window (plain registers such as the
         # previous value are legitimately read as they were on entry)
@@ -799,7 +826,7 @@ def ratio_guards(F, R):
         if v is None:
             continue
         fl = flow(F, v)
-        out_cells = [c for c in fl.m.touched if c.split('.')[-1] == 'out']
+        out_cells = fl.m.output_cells()
         ok = False
         detail = 'no guarded ratio found'
         sources = [(cell, fl.m.up_fields[cell]) for cell in out_cells]
